@@ -302,7 +302,7 @@ class KroneckerProductLinearOperator(LinearOperator):
 
         # return a dense root decomposition if the matrix is small
         if self.shape[-1] <= settings.max_cholesky_size.value():
-            return super().root_inv_decomposition()
+            return super().root_inv_decomposition(initial_vectors=initial_vectors, test_vectors=test_vectors, method=method)
 
         root_list = [lt.root_inv_decomposition().root for lt in self.linear_ops]
         kronecker_root = KroneckerProductLinearOperator(*root_list)
